@@ -426,10 +426,24 @@ func c18Opsets(c *Ctx) {
 	c.SetCase("opset imports [%s] (highest %d)", desc, max)
 	c.Nontrivial("opset|" + desc)
 	c.Count("kind:opset-list", 1)
+	modelBytes := g.Bytes()
+	if r.Chance(0.3) {
+		// a model-local function carries opset imports of its own (for its body): they say nothing about
+		// the operator set the graph's nodes are bound to, which is what decides whether the model loads
+		mp := g.Proto()
+		fv := []int64{13, 13, 12, 1, 14}[r.Intn(5)]
+		mp.Functions = append(mp.Functions, &onnx.FunctionProto{Name: "f", Input: []string{"a"}, Output: []string{"b"}, OpsetImport: []*onnx.OperatorSetIdProto{{Version: fv}}})
+		if b, err := proto.Marshal(mp); err == nil {
+			modelBytes = b
+			desc += fmt.Sprintf(" + a function importing %d", fv)
+			c.SetCase("opset imports [%s] (highest of the model %d)", desc, max)
+			c.Count("opset-lists-next-to-a-function-with-its-own-imports", 1)
+		}
+	}
 	var m *gonnx.Model
 	o := mon.Capture(nil, func() ([]tensor.Tensor, error) {
 		var err error
-		m, err = gonnx.NewModelFromBytes(g.Bytes())
+		m, err = gonnx.NewModelFromBytes(modelBytes)
 		return nil, err
 	})
 	c.Eval(1)
